@@ -671,6 +671,11 @@ def memo_rules(ctx, pid):
         raise AnalysisError('no entry point of %s found (scope.PROP_ROOTS)'
                             % pid)
     reach = CG.reachable(prog, roots)
+    from ..scope import REACH_ONLY
+    only = REACH_ONLY.get(pid)
+    if only is not None:
+        only = only(prog)
+        reach = {q: fi for q, fi in reach.items() if only(fi)}
     reach_nodes = {id(fi.node): fi for fi in reach.values()}
     # a known function split into a delegate and its old body (loader):
     # callers are analysed against the body; the delegate runs whenever the
